@@ -1,5 +1,5 @@
 (* Properties/C13.v -- an exception at any point leaves the render state consistent *)
-From MakoV Require Import Lib.Str Model.Core Proofs.CoreProofs Proofs.CoreMore.
+From MakoV Require Import Lib.Str Model.Core Proofs.CoreProofs Proofs.CoreMore Proofs.CoreGeneral.
 
 (* the consistency theorem is stated for every outcome; instantiated for exceptions: wherever it is
    raised -- inside nested defs, buffered or filtered sections, captures, calls with content, bodies
@@ -38,6 +38,17 @@ Print Assumptions C13_direct_text_stays.
 
 (* non-vacuity: an exception inside the body of a call with content, inside a filtered def, inside a
    capture; handled two levels up; direct text stays, buffered text goes *)
+
+(* from any state inside a render function -- also one in which a caller is waiting in nextcaller for a call whose arguments are
+   being evaluated -- every construct, in every outcome, leaves the caller stack and nextcaller as they were, adds or loses no
+   buffer and lets only the buffer on top grow (no hypothesis on nextcaller: true since a call with content puts the slot back
+   instead of clearing it, fix 98e6214) *)
+Theorem C13_render_state_preserved : forall defs fuel w me n s,
+  bufs s <> [] -> w = writer_of s ->
+  grows s (fst (fst (exec defs fuel w me n s))) /\ nextcaller (fst (fst (exec defs fuel w me n s))) = nextcaller s.
+Proof. exact render_state_preserved. Qed.
+Print Assumptions C13_render_state_preserved.
+
 Example C13_nonvacuous :
   render [ {| d_body := [NText (s2l "B"); NCallerBody]; d_buffered := false; d_filtered := true |};
            {| d_body := [NText (s2l "c"); NCallContent 0 [NText (s2l "b"); NRaise]]; d_buffered := false; d_filtered := false |} ]
